@@ -63,6 +63,10 @@ fn case(item: u64, rng: &mut Rng, acc: &mut Acc, quick: bool) {
         xx.push(rng.fo());
         let (outc, control) = run_tracked(&su, &xx, &st);
         acc.evals += 1;
+        if let Outcome::Panic(p) = &outc {
+            acc.violate(item, "panic_at_legal_point", "coords:panic", json!({"config": su.describe(), "x": fjv(&x), "panic": p}));
+            continue;
+        }
         let Outcome::Ok(o) = outc else {
             acc.count("tracked_sample_not_ok");
             continue;
